@@ -54,7 +54,7 @@ def main():
     t0 = time.time()
     violations, lines, undecided = 0, [], []
     # proved part: termination of the backtrack analysis (Verus), when the unit exists
-    units = [("update_backtracks", 30), ("dfa_builders", 16)]
+    units = [("update_backtracks", 30), ("dfa_builders", 16), ("add_re", 14)]
     vres = V.run_units(units) if units else []
     vsum = V.summarize(vres) if vres else None
     for r in vres:
@@ -164,7 +164,12 @@ def main():
                    "definitions twice in separate compiler processes and comparing the texts (execution, not proof)",
                    "termination of update_backtracks for every DFA is the proved part when the Verus unit update_backtracks is listed under proved_obligations",
                    "proved for the DFA builder API (unit dfa_builders): under their stated preconditions the builders' own assert!s cannot fire, indexing is in bounds, and wf_dfa (every transition target is a "
-                   "state) is preserved by every builder; the preconditions themselves are not verified at the call sites in nfa_to_dfa / add_dfa"] + ["UNDECIDED: " + u for u in undecided]
+                   "state) is preserved by every builder; the preconditions themselves are not verified at the call sites in nfa_to_dfa / add_dfa",
+                   "proved for the NFA construction (unit add_re: real regex_to_nfa::add_re, NFA::add_regex, new_state, add_empty/any/end_of_input_transition, make_state_accepting): for EVERY regex "
+                   "whose variables are bound, whose built-ins are known and whose `#` operands are classes, no assert! of the construction fires and every index is in bounds (each arm adds transitions "
+                   "only out of `current` and of fresh states; `current` has no outgoing transition when an arm starts), and the states of earlier rules keep their transitions.  ASSUMED: the contracts of "
+                   "add_char_transition / add_range_transition(s) (entry-API and closure code), the string-literal arm (trusted helper with add_re's contract), Option::replace, termination of the recursion "
+                   "(exec_allows_no_decreases_clause: bindings are acyclic by construction, which is not proved)"] + ["UNDECIDED: " + u for u in undecided]
     rc = C.EXIT_VIOLATION if violations else (C.EXIT_UNDECIDED if undecided else C.EXIT_OK)
     for u in undecided:
         C.say("UNDECIDED " + u)
